@@ -1,5 +1,5 @@
 SPECIFICATION TraceSpec
-CONSTANTS MaxV = 0
+CONSTANTS MaxV = 0 Below = 0 WidthOnly = FALSE
 INVARIANT TraceAccepted
 INVARIANT TypeOK
 INVARIANT BuildableIffInside
